@@ -23,8 +23,12 @@ def fresh_root(node, memo=None):
     return r
 
 
-def child_of(t, view, key, via_slice=False, via_iter=False, via_nav=False):
+def child_of(t, view, key, via_slice=False, via_iter=False, via_nav=False, via_rev=False):
     k = kind(t)
+    if via_rev and k in ('vec', 'list'):
+        # the child is one of the views handed out by reversed(parent)
+        items = list(reversed(view))
+        return t[1], items[len(items) - 1 - key]
     if via_nav and k in ('vec', 'list', 'cont'):
         # the child is obtained through the path-navigation API
         sub = t[1] if k != 'cont' else t[1:][key]
@@ -61,11 +65,22 @@ def snap_str(t, node):
     return E(f)
 
 
-def run_store(t, v, ops, lazy=False):
+def run_store(t, v, ops, lazy=False, virtual=False):
     try:
         x = mk_val(t, v)
     except Exception:
         return 'p.ctor=err'
+    if virtual:
+        # the root view's backing is served lazily by a root-keyed source
+        import pyimpl_partial
+        try:
+            import remerkleable.virtual  # noqa: F401
+        except Exception as e:
+            return 'p.import=err:%s' % type(e).__name__
+        st_ = pyimpl_partial.Store(x.get_backing())
+        if st_.ambiguous:
+            return 'p.skip=ambiguous'
+        x = type(x).view_from_backing(st_.node(bytes(x.get_backing().merkle_root())))
     views = [(t, x)]
     parent = {0: None}
     hook_key = {}
@@ -82,9 +97,9 @@ def run_store(t, v, ops, lazy=False):
                 E(lambda: vv.hash_tree_root())
         try:
             o = op[0]
-            if o in ('child', 'childs', 'childi', 'childn'):
+            if o in ('child', 'childs', 'childi', 'childn', 'childr'):
                 pt, pv = views[int(op[1])]
-                ct, cv = child_of(pt, pv, int(op[2]), via_slice=(o == 'childs'), via_iter=(o == 'childi'), via_nav=(o == 'childn'))
+                ct, cv = child_of(pt, pv, int(op[2]), via_slice=(o == 'childs'), via_iter=(o == 'childi'), via_nav=(o == 'childn'), via_rev=(o == 'childr'))
                 if isinstance(ct, str) or kind(ct) in ('Bv', 'Bl') or cv is None:
                     raise ValueError("not a mutable child view")
                 parent[len(views)] = int(op[1])
@@ -277,6 +292,10 @@ def run_case(c):
         return run_store(c[1], c[2], c[3:])
     if k == 'storel':
         return run_store(c[1], c[2], c[3:], lazy=True)
+    if k == 'storev':
+        return run_store(c[1], c[2], c[3:], virtual=True)
+    if k == 'storevl':
+        return run_store(c[1], c[2], c[3:], lazy=True, virtual=True)
     if k == 'partial':
         import pyimpl_partial
         return pyimpl_partial.run_partial(c[1], c[2], c[3], c[4:])
